@@ -9,11 +9,6 @@ from geneticengine.problems import Fitness, Problem
 from geneticengine.evaluation.api import Evaluator
 
 
-@register(ABCMeta)
-def save_abc(pickler, obj):
-    StockPickler.save_type(pickler, obj) # pyright: ignore
-
-
 def importable(cls: type) -> bool:
     """Whether a worker can find this very class again by its module and qualified name."""
     found: Any = sys.modules.get(cls.__module__)
@@ -31,6 +26,13 @@ def save_class(pickler, obj):
         StockPickler.save_type(pickler, obj) # pyright: ignore
     else:
         save_type(pickler, obj)
+
+
+@register(ABCMeta)
+def save_abc(pickler, obj):
+    # the same for classes below ABC: one made inside a function (a grammar factory, geml's own grammars) cannot be found
+    # again by name and has to travel by value
+    save_class(pickler, obj)
 
 
 class ParallelEvaluator(Evaluator):
